@@ -138,7 +138,13 @@ fn rotation_fault_probe() -> Option<Failure> {
     let res: Vec<(String, String)> = text.lines().filter_map(|l| { let p: Vec<&str> = l.split(' ').collect(); if p[0] == "P" && p.len() >= 3 { Some((p[1].to_string(), p[2].to_string())) } else { None } }).collect();
     if !failed_sync || res.len() != 4 { return None; } // the fault did not hit the rotation's sync (or the child did not finish): nothing probed
     let acked: Vec<&str> = res.iter().filter(|(_, r)| r == "ok").map(|(o, _)| o.as_str()).collect();
-    if acked.is_empty() { return None; }
+    if acked.is_empty() {
+        // fail-stop held; the instance must also be closable, or nothing can be reopened (finding F28, fixed)
+        if text.lines().any(|l| l == "D hung") {
+            return Some(Failure { kind: "impl-vs-oracle", detail: "after the worker crashed on the failed journal sync (database poisoned, all writes refused) dropping the last handles of the database did not return within 10 s: the crashed worker is still counted as running, so the instance can never be closed and reopened".into() });
+        }
+        return None;
+    }
     Some(Failure { kind: "impl-vs-oracle", detail: format!("the fsync of the worker's journal rotation (journal past 64 MB) failed with EIO, yet afterwards these writes were acknowledged: {acked:?} (results {res:?}) - the database was not poisoned") })
 }
 
